@@ -60,8 +60,9 @@ PROPS = {
         not_decided="operator names in content streams (graphics ops, page.rs: formatted text outside both verifiers), resource dictionary assembly, form field names, that the library's own lexer decodes #XX to the same string for non-ASCII bytes",
     ),
     "C28": dict(
-        verus=["outline"],
-        not_decided="sibling/parent/first/last links of write_outline_tree/write_outline_item (pending), destinations resolve to the authored page, name trees",
+        verus=["outline", "outlinelinks"],
+        trusted=["outline_item_to_dict's link fields (Parent/Prev/Next always as given, First/Last only with children): transcribed stub in unit outlinelinks; its /Count is proved in unit outline"],
+        not_decided="destinations resolve to the authored page (page id bookkeeping in write_document), named-destination name trees, id reservation loop of write_outline_tree (count_items nested fn), title strings (C09/C10)",
     ),
     "C17": dict(
         verus=["incr", "prevmerge"],
